@@ -8,7 +8,7 @@
    Oracles: str(number) and astor.to_source(node) are supplied as text inside the expression.
    Definitions only. *)
 From Coq Require Import ZArith NArith List Bool.
-From PydoctorVerif Require Import Base.Sexp Base.PyExpr Gen.TablesC15 Model.StrEsc Model.Wrap Spec.PyGrammar.
+From PydoctorVerif Require Import Base.Sexp Base.PyExpr Gen.TablesC15 Model.StrEsc Model.Wrap Spec.PyGrammar Spec.PyTokenizer.
 Import ListNotations.
 Local Open Scope N_scope.
 
@@ -262,6 +262,75 @@ Fixpoint modelled (e : expr) : bool :=
   | EStarred x => modelled x
   end.
 
+(* ---- calls to re.compile: PyvalColorizer._colorize_ast_re, at the envelope level ----
+   The regex colouriser itself (_colorize_re_pattern: sre_parse36.parse and _colorize_re_tree) is an oracle: either the
+   sequence of its _output calls (text, kind), or "raised ValueError / sre error". *)
+Definition t_pattern : text := [112; 97; 116; 116; 101; 114; 110].
+Definition t_flags : text := [102; 108; 97; 103; 115].
+
+(* astutils.bind_args(signature(re.compile), node): kwargs = {kw.arg: kw.value for kw in keywords if kw.arg is not None}
+   (a later duplicate wins, double-star unpacking is ignored); sig.bind of the positional arguments and kwargs against
+   the signature (pattern, flags=0).
+   None = TypeError. *)
+Fixpoint kw_lookup (name : text) (kws : list (option text * expr)) (acc : option expr) : option expr :=
+  match kws with
+  | [] => acc
+  | (Some n, v) :: rest => kw_lookup name rest (if text_eqb n name then Some v else acc)
+  | (None, _) :: rest => kw_lookup name rest acc
+  end.
+
+Definition kw_names_ok (kws : list (option text * expr)) : bool :=
+  forallb (fun kw : option text * expr =>
+             match fst kw with
+             | Some n => text_eqb n t_pattern || text_eqb n t_flags
+             | None => true
+             end) kws.
+
+Definition bind_re (args : list expr) (kws : list (option text * expr)) : option (expr * option expr) :=
+  if negb (kw_names_ok kws) then None else
+  let kp := kw_lookup t_pattern kws None in
+  let kf := kw_lookup t_flags kws None in
+  match args with
+  | [] => match kp with Some p => Some (p, kf) | None => None end
+  | [p] => match kp with Some _ => None | None => Some (p, kf) end
+  | [p; fl] => match kp, kf with None, None => Some (p, Some fl) | _, _ => None end
+  | _ => None
+  end.
+
+Inductive re_oracle :=
+| ReRaised                                   (* ValueError / sre_constants.error while parsing or colourising the pattern *)
+| RePieces (pieces : list (text * nkind)).   (* the _output calls of _colorize_re_pattern, prefix and quotes included *)
+
+Definition generic_call (f : expr) (args : list expr) (kws : list (option text * expr)) : cmd :=
+  compile PNone (ECall f args kws).          (* _colorize_ast_call_generic: the context does not matter for a call *)
+
+Definition re_cmd (oracle : re_oracle) (f : expr) (args : list expr) (kws : list (option text * expr)) : cmd :=
+  match bind_re args kws with
+  | None => generic_call f args kws                                   (* except TypeError *)
+  | Some (pat, flags) =>
+    match pat with
+    | ELeaf (LConst (KStr s)) | ELeaf (LConst (KBytes s)) =>
+      let isbytes := match pat with ELeaf (LConst (KBytes _)) => true | _ => false end in
+      let pattern_cmd :=
+          if has_nl s then Some (CStr isbytes s)                      (* _colorize_re_pattern_str: multi-line patterns as strings *)
+          else match oracle with
+               | RePieces pieces => Some (CSeq (map (fun tk : text * nkind => COut (fst tk) (snd tk)) pieces))
+               | ReRaised => None
+               end in
+      match pattern_cmd with
+      | None => generic_call f args kws                               (* state.restore(mark); generic *)
+      | Some pc =>
+        CSeq [COut [114; 101; 46; 99; 111; 109; 112; 105; 108; 101] NRef; out T_LP;
+              CIndent (CSeq (pc :: match flags with
+                                   | Some fl => [CComma; compile (POther None) fl]
+                                   | None => []
+                                   end));
+              out T_RP]
+      end
+    | _ => generic_call f args kws                                    (* pattern not a str/bytes constant *)
+    end
+  end.
+
 (* ---- wire ---- *)
 Definition unop_of_N (n : N) : option unop :=
   match n with 0 => Some USub | 1 => Some UAdd | 2 => Some UNot | 3 => Some UInvert | _ => None end.
@@ -412,13 +481,20 @@ Definition token_of_sexp (s : sexp) : option token :=
     end
   end.
 
+Definition nkind_of_N (n : N) : nkind :=
+  match n with 0 => NText | 1 => NQuote | 2 => NString | 3 => NEllTag | 4 => NRef | 5 => NWbr | 6 => NLinewrap
+             | 7 => NEllipsis | 8 => NUnknown | _ => NOther end.
+
 Definition sexp_of_node (n : node) : sexp := L [of_N (nkind_idx (nk n)); of_text (ntext n)].
 
 Definition unmodelled : sexp := L [A (-998)].
 
 (* run:  (0 (linelen maxlines linebreakok) ctx expr) -> (complete lw_mutated fuel_ok (nodes))
-         (1 ctx expr)  -> ((tokens) readback_ok (readback-tree | ()))     readback_ok: read (pp e) = Some (norm e)
-         (2 (tokens))  -> (tree) | ()                                      the spec reader alone (spec validation) *)
+         (1 ctx expr)  -> ((tokens) readback_ok (readback-tree | ()) lexable)   readback_ok: read (pp e) = Some (norm e)
+         (2 (tokens))  -> (tree) | ()                                      the spec reader alone (spec validation)
+         (3 text)      -> ((tokens)) | ()                                  the spec tokenizer alone
+         (4 (linelen maxlines linebreakok) call-expr oracle) -> like 0        a call to re.compile displayed on its own;
+                        oracle: () = the regex colouriser raised, (((text kind) ...)) = its _output calls *)
 Definition run (s : sexp) : sexp :=
   match to_N (nth_s 0 s) with
   | 0 =>
@@ -440,12 +516,33 @@ Definition run (s : sexp) : sexp :=
       let r := read ts in
       L [L (map sexp_of_token ts);
          of_bool (match r with Some e' => expr_eqb e' (norm e) | None => false end);
-         match r with Some e' => L [sexp_of_expr e'] | None => L [] end]
+         match r with Some e' => L [sexp_of_expr e'] | None => L [] end;
+         of_bool (lexable e)]
     end
   | 2 =>
     match all_some (map token_of_sexp (to_list (nth_s 1 s))) with
     | None => bad_input
     | Some ts => match read ts with Some e => L [sexp_of_expr e] | None => L [] end
+    end
+  | 4 =>
+    let ps := nth_s 1 s in
+    let p := Params (to_N (nth_s 0 ps)) (to_N (nth_s 1 ps)) (to_bool (nth_s 2 ps)) in
+    match expr_of_sexp (sexp_depth (nth_s 2 s)) (nth_s 2 s) with
+    | Some (ECall f args kws) =>
+      if negb (is_re_compile f) || negb (forallb modelled args && forallb (fun kw : option text * expr => modelled (snd kw)) kws)
+      then unmodelled else
+      let oracle := match to_list (nth_s 3 s) with
+                    | [] => ReRaised
+                    | x :: _ => RePieces (map (fun tk => (to_text (nth_s 0 tk), nkind_of_N (to_N (nth_s 1 tk)))) (to_list x))
+                    end in
+      let c := colorize p (re_cmd oracle f args kws) in
+      L [of_bool (c_complete c); of_bool (c_lw_mutated c); of_bool (c_fuel_ok c); L (map sexp_of_node (c_nodes c))]
+    | _ => bad_input
+    end
+  | 3 =>
+    match tokenize (to_text (nth_s 1 s)) with
+    | Some ts => L [L (map sexp_of_token ts)]
+    | None => L []
     end
   | _ => bad_input
   end.
